@@ -75,7 +75,7 @@ func genC17(t *rapid.T) C17Case {
 		if rapid.IntRange(0, 3).Draw(t, "fail") == 0 {
 			o.Errno = rapid.SampledFrom([]int{int(syscall.EPERM), int(syscall.EINVAL), int(syscall.EBUSY), int(syscall.ENOMEM)}).Draw(t, "errno")
 		}
-		o.Noise = rapid.SampledFrom([]int{0, 0, 0, 1, 2}).Draw(t, "noise")
+		o.Noise = rapid.SampledFrom([]int{0, 0, 0, 1, 2, 10, 9, 11, 25}).Draw(t, "noise")
 		o.Eintr = rapid.SampledFrom([]int{0, 0, 0, 1, 3, 9}).Draw(t, "eintr")
 		if o.K == "nowait" && rapid.IntRange(0, 7).Draw(t, "hard") == 0 {
 			o.Hard = rapid.SampledFrom([]int{int(syscall.ENOBUFS), int(syscall.EBADF), int(syscall.ENOTCONN)}).Draw(t, "harderrno")
